@@ -65,6 +65,7 @@ type PrintCtx struct {
 	prefix string
 
 	inGroupedMode bool
+	nested        int // > 0 while the members of a group are written as a nested JSON object
 
 	// curdir string
 
@@ -75,6 +76,7 @@ func (s *PrintCtx) source() *Source { return s.cachedSource.Extract(s.stackFrame
 
 func (s *PrintCtx) setentry(e *Entry) {
 	s.buf = s.buf[:0]
+	s.nested = 0
 
 	s.jsonMode = e.useJSON
 	useColor := e.useColor
